@@ -113,18 +113,18 @@ def run(ctx):
     runs = []
     if q:
         # one transaction (<= 2 writes, <= 3 events, <= 4 operations) on 3 preset states x commit|crash x revert|restart
-        runs.append(("tx2", "StateMachine_tx", dict(Plan="PlanTx2", DumpEvery=4), dict(workers=8), True))
+        runs.append(("tx2", "StateMachine_tx", dict(Plan="PlanTx2", DumpEvery=12), dict(workers=8), True))
         # two blocks, commit|crash, revert|restart, revert|transaction, commit
-        runs.append(("seqA", "StateMachine_tx", dict(Plan="PlanSeqA", DumpEvery=4), dict(workers=8), True))
+        runs.append(("seqA", "StateMachine_tx", dict(Plan="PlanSeqA", DumpEvery=16), dict(workers=8), True))
         # two transactions in one block
-        runs.append(("2txA", "StateMachine_tx", dict(Plan="Plan2TxA", DumpEvery=5), dict(workers=8), True))
+        runs.append(("2txA", "StateMachine_tx", dict(Plan="Plan2TxA", DumpEvery=20), dict(workers=10), True))
         runs.append(("sim", "StateMachine_sim", dict(Plan="PlanSim14"), dict(workers=1, simulate=300, depth=16), False))
     else:
         runs.append(("tx2", "StateMachine_tx", dict(Plan="PlanTx2", DumpEvery=1), dict(workers=8), True))
-        runs.append(("tx3", "StateMachine_tx", dict(Plan="PlanTx3", DumpEvery=12), dict(workers=12), True))
-        runs.append(("tx4", "StateMachine_tx", dict(Plan="PlanTx4", Presets="Presets1", DumpEvery=40), dict(workers=12, timeout=2400), True))
-        runs.append(("seqB", "StateMachine_tx", dict(Plan="PlanSeqB", DumpEvery=24), dict(workers=12), True))
-        runs.append(("2txB", "StateMachine_tx", dict(Plan="Plan2TxB", DumpEvery=20), dict(workers=12), True))
+        runs.append(("tx3", "StateMachine_tx", dict(Plan="PlanTx3", DumpEvery=40), dict(workers=12), True))
+        runs.append(("tx4", "StateMachine_tx", dict(Plan="PlanTx4", Presets="Presets1", DumpEvery=160), dict(workers=12, timeout=2400), True))
+        runs.append(("seqB", "StateMachine_tx", dict(Plan="PlanSeqB", DumpEvery=80), dict(workers=12), True))
+        runs.append(("2txB", "StateMachine_tx", dict(Plan="Plan2TxB", DumpEvery=80), dict(workers=12), True))
         runs.append(("sim", "StateMachine_sim", dict(Plan="PlanSim22"), dict(workers=1, simulate=2500, depth=24), False))
     tot = {k: 0 for k in SUMS}
     counts = {}
